@@ -784,3 +784,149 @@ Theorem C09_a64_steps_run :
     exists n, forall fuel, run_chunk (n + fuel) im pc s = run_chunk fuel im pc' s'.
 Proof. exact exec_to_run_chunk. Qed.
 Print Assumptions C09_a64_steps_run.
+
+(* ---------- AArch64: store (Let / Create) and load (Switch / Invoke) ---------- *)
+(* Proof/A64MemStore.v, A64MemStoreChain.v, A64MemLoad.v, A64MemLoadChain.v (ports of the x86-64 proofs; the abstract
+   side - `fsts`, `alloc_object_pre`, `alloc_object_acq`, `wblocks`, `waddrs`, `lf_share_ok`, `lf_addrs` - is literally
+   shared).  Only the strongest form of each theorem exists: besides the refinement of `Heap.alloc_object` /
+   `Heap.load_object` it gives the data words, the frame of the heap words, of the temporaries and of the stack.
+   `tpos k`: temporary of position k (registers X4..X29 for k < 26, spill slots k - 25 after, slot 0 is scratch).
+   Extra hypothesis of the store: `alloc_object_hdr64` (the header of the reserved block is a 64-bit value at every
+   acquire of the chain).
+   SEEDED DEFECT 2 (`register_freed` not reset between the Release and the Share call of `load_fields`): with the flag
+   carried over, the Share branch of a load whose block pointers sit in spill slots neither saves X10 = `tpos 6` before
+   using it for the block pointer nor restores it to its value (it reloads slot 0, stale); `C09_a64_load`'s conjunct
+   `forall k < 2 * |existing|, lget s' sp (tpos k) = lget s sp (tpos k)` is false for k = 6 then.  In the proof:
+   `a64_load_fields_ok` (Proof/A64MemLoadChain.v) is applied with `freed = false` in the Share branch of
+   `a64_load_walk_full`; with `freed = true` its `saved`/`lgetL` hypothesis reads slot 0, which nothing has written. *)
+From SCC Require Import Proof.X86HeapDefs Proof.X86HeapAcq.
+From SCC Require Import Proof.A64MemStore Proof.A64MemStoreChain Proof.A64MemLoad Proof.A64MemLoadChain.
+From SCC Require Import Model.A64 Sem.A64Sem Proof.A64State Proof.A64Exec Proof.A64Mem Proof.A64MemOps.
+
+Theorem C09_a64_store_empty :
+  forall im pos (remaining : ctx) lc cs lc' s sp,
+    a_store nil remaining lc = Ok (cs, lc') -> code_at im pos cs -> frame_ok s sp ->
+    lc' = lc /\
+    exists s', exec_to im pos s (padd pos (length cs)) s' /\
+      lget s' sp (tpos (2 * N.of_nat (length remaining))) = Some 0 /\
+      (forall l, loc_ok l -> l <> tpos (2 * N.of_nat (length remaining)) -> l <> AR TEMP -> lget s' sp l = lget s sp l) /\
+      heap s' = heap s /\ out s' = out s /\ frame_ok s' sp /\ stack_frame s s' sp.
+Proof. exact a64_store_empty_ok. Qed.
+Print Assumptions C09_a64_store_empty.
+
+Theorem C09_a64_store_one_block :
+  forall im pos (to_store remaining : ctx) lc cs lc' s sp rv h2 F val,
+    a_store to_store remaining lc = Ok (cs, lc') -> (1 <= length to_store <= 3)%nat ->
+    code_at im pos cs -> labels_at im pos cs -> frame_ok s sp ->
+    rget s HEAP = Some rv -> is_blk rv -> rget s FREE = Some h2 ->
+    AxSem.min_int <= hword s rv <= AxSem.max_int ->
+    (hword s rv = 0 -> is_blk h2) ->
+    (hword s rv = 0 -> hword s h2 <> 0 ->
+       (forall off, off = 16 \/ off = 32 \/ off = 48 -> hword s (h2 + off) = 0 \/ is_blk (hword s (h2 + off))) /\
+       bounded 3 s (hword s h2)) ->
+    vals_ok s sp val (length remaining) to_store ->
+    let E := length remaining in let n := length to_store in
+    let res := Heap.alloc (Heap.pad 3 (fsts val E to_store)) (abs_heap F s) in
+    exists s', exec_to im pos s (padd pos (length cs)) s' /\
+      st_eqB (abs_heap (Heap.frontier (snd res)) s') (snd res) /\ fst res = rv /\
+      lget s' sp (tpos (2 * N.of_nat E)) = Some rv /\
+      (forall i, (i < n)%nat -> hword s' (rv + field_offset Snd (3 - N.of_nat n + N.of_nat i)) = snd_slot val (E + i)) /\
+      (forall k, (k < MAXPOS)%N -> k <> (2 * N.of_nat E)%N -> lget s' sp (tpos k) = lget s sp (tpos k)) /\
+      out s' = out s /\ frame_ok s' sp /\ stack_frame s s' sp.
+Proof. exact a64_store_one_block_ok. Qed.
+Print Assumptions C09_a64_store_one_block.
+
+(* any number of fields (chains), the new block pointers in registers or spill slots: a_store = Heap.alloc_object *)
+Theorem C09_a64_store :
+  forall im pos (to_store remaining : ctx) lc cs lc' s sp F val,
+    a_store to_store remaining lc = Ok (cs, lc') -> to_store <> nil ->
+    code_at im pos cs -> labels_at im pos cs -> frame_ok s sp ->
+    vals_ok s sp val (length remaining) to_store ->
+    let E := length remaining in let n := length to_store in let k := Heap.nlinks n in
+    let fields := fsts val E to_store in
+    alloc_object_pre fields (abs_heap F s) -> alloc_object_hdr64 fields (abs_heap F s) ->
+    NoDup (alloc_object_acq fields (abs_heap F s)) ->
+    let res := Heap.alloc_object fields (abs_heap F s) in
+    exists s', exec_to im pos s (padd pos (length cs)) s' /\
+      st_eqB (abs_heap (Heap.frontier (snd res)) s') (snd res) /\
+      lget s' sp (tpos (2 * N.of_nat E)) = Some (fst res) /\
+      (forall q, (q < 2 * N.of_nat E)%N -> lget s' sp (tpos q) = lget s sp (tpos q)) /\
+      out s' = out s /\ frame_ok s' sp /\
+      wblocks k (hword s') (fst res) = rev (alloc_object_acq fields (abs_heap F s)) /\
+      Forall is_blk (wblocks k (hword s') (fst res)) /\
+      (let A := waddrs k (hword s') (fst res) in
+       (forall i b, nth_error to_store i = Some b ->
+          let a := nth (length A - n + i) A 0 in
+          hword s' a = fst_slot val (E + i) b /\ hword s' (a + 8) = snd_slot val (E + i)) /\
+       (forall j, (j < length A - n)%nat -> hword s' (nth j A 0) = 0)) /\
+      (forall a, ~ is_blk a -> (forall b, In b (alloc_object_acq fields (abs_heap F s)) -> a < b \/ b + 64 <= a) -> hword s' a = hword s a) /\
+      stack_frame s s' sp.
+Proof. exact a64_store_full. Qed.
+Print Assumptions C09_a64_store.
+
+Theorem C09_a64_load_one_block :
+  forall im pos (to_load existing : ctx) lc cs lc' s sp p h F,
+    a_load to_load existing lc = Ok (cs, lc') -> (1 <= length to_load <= 3)%nat ->
+    code_at im pos cs -> labels_at im pos cs -> frame_ok s sp ->
+    lget s sp (tpos (2 * N.of_nat (length existing))) = Some p -> is_blk p -> rget s HEAP = Some h ->
+    load_pre s p (length existing) to_load ->
+    exists s', exec_to im pos s (padd pos (length cs)) s' /\
+      st_eqB (abs_heap F s') (Heap.load p (abs_heap F s)) /\
+      (forall i b, nth_error to_load i = Some b ->
+         lget s' sp (tpos (2 * N.of_nat (length existing + i) + 1)) =
+           Some (hword s (p + field_offset Snd (3 - N.of_nat (length to_load) + N.of_nat i))) /\
+         (bchi b <> AxSyn.Ext -> lget s' sp (tpos (2 * N.of_nat (length existing + i))) =
+           Some (hword s (p + field_offset Fst (3 - N.of_nat (length to_load) + N.of_nat i))))) /\
+      (forall k, (k < 2 * N.of_nat (length existing))%N -> lget s' sp (tpos k) = lget s sp (tpos k)) /\
+      out s' = out s /\ frame_ok s' sp.
+Proof. exact a64_load_one_block_ok. Qed.
+Print Assumptions C09_a64_load_one_block.
+
+(* any number of fields, both modes, block pointers in registers or in spill slots (then worked on in X10, which is
+   saved to slot 0 and restored): a_load = Heap.load_object *)
+Theorem C09_a64_load :
+  forall im pos (to_load existing : ctx) lc cs lc' s sp p h F,
+    a_load to_load existing lc = Ok (cs, lc') -> to_load <> nil ->
+    code_at im pos cs -> labels_at im pos cs -> frame_ok s sp ->
+    lget s sp (tpos (2 * N.of_nat (length existing))) = Some p -> is_blk p -> rget s HEAP = Some h ->
+    lf_share_ok (S (length to_load)) (hword s) to_load X86.Last p ->
+    (forall x, is_blk x -> AxSem.min_int + 1 <= hword s x /\ hword s x + Z.of_nat (length to_load) <= AxSem.max_int) ->
+    exists s', exec_to im pos s (padd pos (length cs)) s' /\
+      st_eqB (abs_heap F s') (Heap.load_object (Heap.nlinks (length to_load)) p (abs_heap F s)) /\
+      (forall i b, nth_error to_load i = Some b ->
+         let A := lf_addrs (S (length to_load)) (hword s) to_load X86.Last p in
+         let a := nth (length A - length to_load + i) A 0 in
+         lget s' sp (tpos (2 * N.of_nat (length existing + i) + 1)) = Some (hword s (a + 8)) /\
+         (bchi b <> AxSyn.Ext -> lget s' sp (tpos (2 * N.of_nat (length existing + i))) = Some (hword s a))) /\
+      (forall k, (k < 2 * N.of_nat (length existing))%N -> lget s' sp (tpos k) = lget s sp (tpos k)) /\
+      out s' = out s /\ frame_ok s' sp /\
+      nonblk_same s s' /\ (exists h', rget s' HEAP = Some h') /\ rget s' FREE = rget s FREE /\ stack_frame s s' sp.
+Proof. exact a64_load_full. Qed.
+Print Assumptions C09_a64_load.
+
+(* non-vacuity: a 5-field object (2 blocks) stored behind 13 variables - the new block pointers go to spill slots, the
+   path of seeded defect 1 - and a shared 2-block object loaded behind 13 variables - every block pointer in a spill
+   slot, X10 evacuated and restored, the path of seeded defect 2 *)
+Example C09_a64_store_example :
+  let a := abs_heap (HEAP_BASE + 64) A64MemStoreChain.ex5_state in
+  let res := Heap.alloc_object (fsts A64MemStoreChain.ex5_val 13 A64MemStoreChain.ex5_store) a in
+  exists lc', a_store A64MemStoreChain.ex5_store A64MemStoreChain.ex5_rem 0 = Ok (A64MemStoreChain.ex5_code, lc') /\
+  fsts A64MemStoreChain.ex5_val 13 A64MemStoreChain.ex5_store = 0 :: 128 :: 0 :: 132 :: 0 :: nil /\ tpos 26 = AS 1 /\
+  fst res = HEAP_BASE + 64 /\ Heap.frontier (snd res) = HEAP_BASE + 192 /\
+  exists s', exec_to (mk_image A64MemStoreChain.ex5_code) 1 A64MemStoreChain.ex5_state (padd 1 (length A64MemStoreChain.ex5_code)) s' /\
+     st_eqB (abs_heap (HEAP_BASE + 192) s') (snd res) /\ sget s' A64MemStoreChain.ex_sp 1 = Some (HEAP_BASE + 64) /\
+     wblocks 1 (hword s') (HEAP_BASE + 64) = (HEAP_BASE + 64) :: HEAP_BASE :: nil /\
+     hword s' (HEAP_BASE + 64 + 16 + 8) = 127 /\ hword s' (HEAP_BASE + 64 + 32) = 128 /\ hword s' (HEAP_BASE + 48 + 8) = 135 /\
+     stack_frame A64MemStoreChain.ex5_state s' A64MemStoreChain.ex_sp.
+Proof. exact a64_store_example. Qed.
+Print Assumptions C09_a64_store_example.
+
+Example C09_a64_load_example :
+  exists lc', a_load X86MemStoreChain.ex5_store ex13_existing 0 = Ok (ex13_code, lc') /\
+  hword ex13_state HEAP_BASE = 1 /\ rget ex13_state TEMPORARY_TEMP = Some 777 /\
+  exists s', exec_to (mk_image ex13_code) 1 ex13_state (padd 1 (length ex13_code)) s' /\
+     st_eqB (abs_heap (HEAP_BASE + 256) s') (Heap.load_object 1 HEAP_BASE (abs_heap (HEAP_BASE + 256) ex13_state)) /\
+     sget s' A64MemLoadChain.ex_sp 2 = Some 11 /\ sget s' A64MemLoadChain.ex_sp 3 = Some (HEAP_BASE + 128) /\
+     sget s' A64MemLoadChain.ex_sp 10 = Some 55 /\ rget s' TEMPORARY_TEMP = Some 777.
+Proof. exact a64_load_example. Qed.
+Print Assumptions C09_a64_load_example.
